@@ -23,7 +23,7 @@ def sh(cmd, **kw):
 def one(sid):
     d = os.path.join(ROOT, "seeded", sid)
     meta = json.load(open(os.path.join(d, "meta.json")))
-    caught = [c.split(":")[0] for c in meta.get("checks_run", []) if c.endswith(":caught")]
+    caught = [c.split(":")[0] for c in meta.get("checks_run", []) + meta.get("after_strengthening", {}).get("checks", []) if c.endswith(":caught")]
     own = meta.get("property")
     order = ([own] if own in caught else []) + [c for c in caught if c != own]
     if not order:
